@@ -4,7 +4,10 @@ Areas (harness go/cmd/c03, all sixteen configurations D1..D16 instantiated at co
   fx       operations whose exact intermediates and result are representable (the hypotheses of the theorems hold;
            classified in the generator with math/big): implementation vs model, line by line
   fxwrap   operations that overflow somewhere, or divide by zero: wrap-around / panic behaviour, model vs implementation
-  fxfloat  float paths of From / As: implementation-side oracle against exact big.Rat arithmetic (no Lean model)
+  fxfloatm float paths of From / As (float64 and float32 kinds): implementation vs the Lean model
+           (Model/FixedFloat.lean on the binary64 model GoSem.F64), raw for raw and bit for bit
+  fxfloat  float paths of From / As: implementation-side oracle against exact big.Rat arithmetic (the literal bound of
+           the property, end to end, independent of the model)
 """
 
 OVERLAY = {"xmath/fixed/f128/verif_c03.go": "c03_f128_raw.go"}
@@ -52,5 +55,14 @@ def run(ctx):
              theorem="wrap-around / panic behaviour: the model transcribes Go's int64 and num.Int128 overflow "
                      "semantics; impl != model on this input",
              what="overflow stream: outside the representability hypotheses of the property; model-vs-code only")
+    ctx.diff(area="fxfloatm", driver="drv_c03", n={"quick": 120000, "thorough": 3000000},
+             tagger=lambda l, o: "float." + (_tag(l, o) or "?"),
+             theorem="C03.f64_from_float_bound / f64_as_float_bound / f128_from_float_bound / f128_as_float_bound: the "
+                     "model of the float paths (one rounded product then truncation; nearest float64 of raw/mult; "
+                     "decimal expansion rounded at D+1 and cut to D digits; 128-bit quotient then nearest float64) stays "
+                     "within max(one unit of the last place, 2^-52 relative) of the exact value on its domain; "
+                     "impl != model on this input",
+             what="float paths of From/As inside the domain on which Go defines them (f64.From: truncated product "
+                  "within int64, no NaN/Inf)")
     ctx.impl_oracle("fxfloat", {"quick": 60000, "thorough": 2000000},
                     label="float From/As within max(1 unit of the last place, 2^-52 relative) of the exact value")
